@@ -15,7 +15,7 @@ import threading
 
 ALPHABET = ["ok-keep", "ok-close", "refuse", "close-before-reply", "reset", "404-with-length", "500-without-length-then-close",
             "503-bodiless", "204-no-content-keep-alive", "304-not-modified-keep-alive", "502-no-length-left-open", "truncated-body",
-            "empty-200", "non-json-200"]
+            "empty-200", "non-json-200", "chunked-200-cut-before-last-chunk"]
 
 
 class Peer(object):
@@ -182,6 +182,13 @@ class Peer(object):
                 send(b"200 OK", b"")
             elif letter == "non-json-200":
                 send(b"200 OK", b"<html>not json</html>")
+            elif letter == "chunked-200-cut-before-last-chunk":
+                # the whole reply text arrives (padded to the client's 1024-byte read size), the terminating chunk never does:
+                # the client has been fed a complete JSON text when its read fails
+                padded = reply + b" " * (-len(reply) % 1024)
+                conn.sendall(b"HTTP/1.1 200 OK\r\nContent-Type: application/json\r\nTransfer-Encoding: chunked\r\n\r\n" +
+                             hex(len(padded))[2:].encode() + b"\r\n" + padded + b"\r\n")
+                return
 
 
 def run(tier="quick", seed=0):
